@@ -98,6 +98,21 @@ class Child:
         return object.__getattribute__(self, name)
 
 
+class SlotChild:
+    """an object that cannot carry a per-instance marker"""
+    __slots__ = ('pub',)
+
+    def __init__(self):
+        object.__setattr__(self, 'pub', 'SLOT-PUB')
+
+    def __getattribute__(self, name):
+        if name in INFRA:
+            LOG.infra += 1
+        else:
+            LOG.attrs.append(('slot.' + name, hooks.yaql_site(2)))
+        return object.__getattribute__(self, name)
+
+
 class Probe:
     """a yaqlized host object"""
 
@@ -121,6 +136,18 @@ class Probe:
     def __getitem__(self, key):
         LOG.items.append((key, hooks.yaql_site(2)))
         return 'ITEM:%s' % (key,)
+
+
+def scan_value(obj, value, depth=0):
+    if depth > 6:
+        return False
+    if isinstance(obj, str):
+        return value in obj
+    if isinstance(obj, dict):
+        return any(scan_value(v, value, depth + 1) for v in obj.values())
+    if isinstance(obj, (list, tuple, set, frozenset)):
+        return any(scan_value(x, value, depth + 1) for x in obj)
+    return False
 
 
 def scan(obj, depth=0):
@@ -261,9 +288,11 @@ def model_access(settings, form, name):
 WHITELISTS = {'none': [], 'string': ['pub', 'meth', 'alias'], 'regex': [re.compile('^(pub|meth|alias|chi)')],
               'predicate': [lambda n: n in ('pub', 'meth', 'alias', 'target')],
               # entries that also match private names: the underscore rule must hold whatever the whitelist says
-              'regex-broad': [re.compile('p')], 'predicate-all': [lambda n: True],
+              'regex-broad': [re.compile('p')], 'predicate-all': [lambda n: True], 'regex-middle': [re.compile('ub|eth|lias')],
               'string-private': ['_priv', '_pmeth', 'pub', '__class__']}
 BLACKLISTS = {'none': [], 'string': ['other', 'meth'], 'regex': [re.compile('oth|^met')],
+              # unanchored entries match anywhere in the name (re.search semantics of the documentation's examples)
+              'regex-middle': [re.compile('the|et')],
               'predicate': [lambda n: n.startswith('o') or n == 'pub']}
 REMAPPINGS = {'none': {}, 'name': {'alias': 'target'}, 'name+args': {'alias': ('meth', {'y': 'x'})},
               'shadow': {'pub': 'other'}}
@@ -537,6 +566,30 @@ def _policy_extras(mon, rec):
             rec.violation('host-object-touched:attribute:via-yaqlized-parent',
                           '$p.child.pub reached the non-yaqlized child: touches %r, outcome %r' % (child_touches, out),
                           {'kind': 'policy-auto', 'auto': auto})
+    # what auto-yaqlization marks is the returned object, never its class: an unrelated instance of the same
+    # class, which no yaqlized object ever returned, stays out of reach afterwards
+    cfg = {'attributes': True, 'methods': True, 'indexer': True, 'wl': 'none', 'bl': 'none', 'rm': 'none'}
+    for cls, prefix, value in ((Child, 'child.', 'CHILD-PUB'), (SlotChild, 'slot.', 'SLOT-PUB')):
+        p, settings = build_probe(cfg, auto=True)
+        object.__getattribute__(p, '__dict__')['child'] = cls()
+        first = mon.run('$p.child.pub', {'p': p})
+        foreign = cls()
+        for text in ('$f.pub', "$f['pub']", '[$p.child, $f].select($.pub)', '$p.child.pub + $f.pub'):
+            out = mon.run(text, {'p': p, 'f': foreign})
+            touches = [n for n, s in LOG.attrs if n.startswith(prefix) and s != 'unknown']
+            n_ok = 2 if text.startswith('[') else 1
+            rec.count('policy.cases')
+            rec.case(('policy-auto-scope', cls.__name__, text), nontrivial=True)
+            leaked = out[0] == 'value' and scan_value(out[1], value) and text in ('$f.pub', "$f['pub']")
+            if leaked or (text in ('$f.pub', "$f['pub']") and touches):
+                rec.violation('host-object-touched:attribute:via-auto-yaqlized-class',
+                              '%s on an instance of %s that no yaqlized object returned (after %r gave %r): touches %r, outcome %r' % (
+                                  text, cls.__name__, '$p.child.pub', first, touches, out),
+                              {'kind': 'policy-auto', 'auto': True})
+            elif text not in ('$f.pub', "$f['pub']") and out[0] == 'value':
+                rec.violation('host-object-touched:attribute:via-auto-yaqlized-class',
+                              '%s succeeded although $f (%s) was never yaqlized: %r' % (text, cls.__name__, out),
+                              {'kind': 'policy-auto', 'auto': True})
     # remapping with argument mapping: alias(y => 5) -> meth(x=5)
     cfg = {'attributes': True, 'methods': True, 'indexer': True, 'wl': 'none', 'bl': 'none', 'rm': 'name+args'}
     p, settings = build_probe(cfg)
